@@ -156,6 +156,30 @@ def rule_normalisation_reached(ctx: Ctx):
                    "the guess -- the value equality and hash are computed from", node=c_, mod=mm)
         ctx.ob("R-C16-9", "models.ResourceCitation.corrected_citation/reporter-replacements", n_rep >= 1, f"{n_rep} replacement(s) of the reporter group inspected", node=cc, mod=mm,
                nontrivial=False)
+    # R-C16-10: the same for the page.  The hash reads groups["page"] as matched; corrected_citation() writes corrected_page().  That may differ
+    # from the matched page only for the reporters the module singles out (REPORTERS_THAT_NEED_PAGE_CORRECTION: bracket spellings of slip-opinion
+    # pages); any other rewrite (stripping zeros, say) makes the normalised text of an ordinary citation re-parse to a different citation
+    cp = repo.func("models.ResourceCitation.corrected_page")
+    if cp is not None:
+        PG = next((norm(x.targets[0]) for x in stmts_local(cp.body) if isinstance(x, ast.Assign) and "groups" in norm(x.value) and "'page'" in norm(x.value)
+                   and isinstance(x.targets[0], ast.Name)), None)
+        badp, n_ret = [], 0
+        for p_ in enumerate_paths(cp.body):
+            if p_.exit != "return":
+                continue
+            rv = p_.exit_node.value
+            if rv is None or (isinstance(rv, ast.Constant) and rv.value is None):
+                continue
+            n_ret += 1
+            if PG is not None and norm(rv) == PG and not any(ev[0] == "stmt" and isinstance(ev[1], (ast.Assign, ast.AugAssign)) and PG in assigned_names(ev[1])
+                                                             and norm(ev[1].value) != norm(rv) and "groups" not in norm(ev[1].value) for ev in p_.events):
+                continue
+            special = any(ev[0] == "cond" and ev[2] and "REPORTERS_THAT_NEED_PAGE_CORRECTION" in norm(ev[1]) for ev in p_.events)
+            if not special:
+                badp.append(p_.exit_node)
+        ctx.ob("R-C16-10", "models.ResourceCitation.corrected_page/rewrites-only-designated-reporters", not badp and n_ret >= 2 and PG is not None,
+               f"every path returns the matched page itself unless the reporter is one of REPORTERS_THAT_NEED_PAGE_CORRECTION ({len(badp)} path(s) rewrite it "
+               f"unconditionally: {[norm(b)[:50] for b in badp][:2]})", node=badp[0] if badp else cp, mod=mm)
     # corrected_reporter prefers the guessed edition
     cr = repo.need_func("models.ResourceCitation.corrected_reporter")
     S = cr.args.args[0].arg
